@@ -48,6 +48,11 @@ def run_seed(name, props_override=None, all_props=False):
         if p.returncode != 0:
             # patches may touch files outside the copied parts (tests, docs): retry tolerant
             p = subprocess.run(['patch', '-p1', '-s', '-f', '-d', d, '-i', os.path.join(sd, 'patch.diff')], capture_output=True, text=True)
+        rej = []
+        for root, _dirs, files in os.walk(d):
+            rej += [os.path.join(root, f) for f in files if f.endswith('.rej')]
+        if rej:
+            return name, meta, {'STALE-PATCH': (3, [f'patch does not apply to the current tree: {os.path.relpath(r, d)}' for r in rej])}
         env = dict(os.environ, PI2_REPO=d, PI2_EVIDENCE_DIR=os.path.join(d, '_ev'))
         for pr in props:
             q = subprocess.run([os.path.join(HERE, 'check'), pr], capture_output=True, text=True, env=env, cwd=HERE)
